@@ -5,9 +5,10 @@
   functions are uninterpreted function symbols (`Term.quant slot _`, `Term.actv slot _`).
   `qlayer cls cfg` transcribes the `call` method of the qkeras class as written in
       qkeras/qlayers.py        QDense.call (647-662), QActivation.call (179-180)
-      qkeras/qconvolutional.py QConv1D.call, QConv2D.call (mask, groups), QSeparableConv1D.call
-                               (causal pad, expand_dims BEFORE quantization), QSeparableConv2D.call,
-                               QDepthwiseConv2D.call
+      qkeras/qconvolutional.py QConv1D.call (causal pad of the time axis in `call`, repaired in
+                               035b3d2), QConv2D.call (mask, groups), QSeparableConv1D.call (causal
+                               pad, kernels quantized AS STORED and expanded afterwards, repaired in
+                               5ab82ec), QSeparableConv2D.call, QDepthwiseConv2D.call
       qkeras/qpooling.py       QAveragePooling2D.call  (avg(x*area) * Q(1/area)),
                                QGlobalAveragePooling2D.call (sum * Q(1/area))
       qkeras/qmac.py           QScaleShift.call
@@ -189,10 +190,13 @@ def dil0 (g : ConvGeom) : Nat := g.dilation.headD 1
     that `Conv._compute_causal_padding` pads -/
 def spatialStart (g : ConvGeom) : Nat := if g.df = .channelsLast then 1 else 2
 
-/-- `K.conv1d`: `padding == "causal"` is expanded inside the backend function into
+/-- `K.conv1d` when it is GIVEN `padding == "causal"`: the backend function expands it into
     `temporal_padding(x, (dilation * (kernel_shape[0] - 1), 0))` followed by a `valid` convolution.
     `temporal_padding` pads AXIS 1 whatever the data format — under `channels_first` that is the
-    channel axis (recorded finding C11-conv1d-causal-channels-first). -/
+    channel axis.  QConv1D.call reached causal padding this way until /repo 035b3d2
+    (finding C11-conv1d-causal-channels-first); it now pads the time axis itself and hands `valid`
+    to `K.conv1d`, so this expansion is no longer reached by any layer term — it is kept for the
+    regression witness (`qConv1dBackendCausal` below). -/
 def kConv1dOp (g : ConvGeom) (ksz : Nat) (x k : Term) : Term :=
   if g.padding = .causal then
     .op2 (.conv1d { g with padding := .valid }) (.op1 (.padLeft 1 (dil0 g * (ksz - 1))) x) k
@@ -210,10 +214,18 @@ def qDense (c : LCfg) : Term :=
 /-- QActivation.call: `self.quantizer(inputs)` -/
 def qActivation (_ : LCfg) : Term := .actv 0 .input
 
-/-- QConv1D.call (both data formats: `data_format=self.data_format` goes to `K.conv1d` and `K.bias_add`) -/
+/-- QConv1D.call (both data formats: `data_format=self.data_format` goes to `K.conv1d` and `K.bias_add`).
+    Causal padding (repaired in 035b3d2): `call` pads the TIME axis of the inputs itself
+    (`tf.pad`, `left_pad = dilation_rate[0] * (kernel_size[0] - 1)`, axis 1 under channels_last, axis 2
+    under channels_first) and runs `K.conv1d` with `padding="valid"` — written independently of
+    `kConv1d` (the stock `Conv.call` + `_compute_causal_padding`); the theorems say they agree. -/
 def qConv1d (c : LCfg) : Term :=
   let k := qw c 0 (.weight 0)
-  let out := kConv1dOp c.conv c.kernel .input k
+  let out :=
+    if c.conv.padding = .causal then
+      Term.op2 (.conv1d { c.conv with padding := .valid })
+        (.op1 (.padLeft (if c.conv.df = .channelsLast then 1 else 2) (dil0 c.conv * (c.kernel - 1))) .input) k
+    else Term.op2 (.conv1d c.conv) .input k
   let out := if c.useBias then .op2 (.biasAdd c.conv.df) out (qw c 1 (.weight 1)) else out
   withAct c out
 
@@ -235,16 +247,17 @@ def sep1dGeom (g : ConvGeom) : ConvGeom :=
     df := g.df }
 
 /-- QSeparableConv1D.call (`spatial_start_dim` = 1 / 2; causal padding through the stock
-    `_compute_causal_padding`, which pads the time axis of either format).  The kernels are expanded
-    to 4-D FIRST and the quantizers see the expanded tensors. -/
+    `_compute_causal_padding`, which pads the time axis of either format).  The quantizers see the
+    kernels AS STORED; the quantized kernels are expanded to 4-D afterwards (repaired in 5ab82ec; before,
+    the kernels were expanded first and the quantizers saw the 4-D tensors: `qSepConv1dExpandFirst`). -/
 def qSepConv1d (c : LCfg) : Term :=
   let x := if c.conv.padding = .causal then
              .op1 (.padLeft (spatialStart c.conv) (dil0 c.conv * (c.kernel - 1))) .input
            else Term.input
   let x := Term.op1 (.expandDims (spatialStart c.conv)) x
-  let dk := Term.op1 (.expandDims 0) (.weight 0)
-  let pk := Term.op1 (.expandDims 0) (.weight 1)
-  let out := Term.op3 (.separableConv2d (sep1dGeom c.conv)) x (qw c 0 dk) (qw c 1 pk)
+  let dk := Term.op1 (.expandDims 0) (qw c 0 (.weight 0))
+  let pk := Term.op1 (.expandDims 0) (qw c 1 (.weight 1))
+  let out := Term.op3 (.separableConv2d (sep1dGeom c.conv)) x dk pk
   let out := if c.useBias then .op2 (.biasAdd c.conv.df) out (qw c 2 (.weight 2)) else out
   let out := Term.op1 (.squeeze (spatialStart c.conv)) out
   withAct c out
@@ -635,12 +648,11 @@ def preEnv {T : Type} (c : LCfg) (E : Env T) : Env T :=
 /-- "followed by the layer's activation quantizer" -/
 def actOf {T : Type} (c : LCfg) (E : Env T) (v : T) : T := if c.hasAct then E.actv 0 v else v
 
-/-- what a quantizer of slot `p.1` may be applied to: its own weight as stored, its own weight
-    expanded to 4-D (1-D separable), or — pooling — the reciprocal of the pool area (constructor
-    constant for QAveragePooling2D, area of the current input for QGlobalAveragePooling2D) -/
+/-- what a quantizer of slot `p.1` may be applied to: its own weight AS STORED (since 5ab82ec also in
+    the 1-D separable layer), or — pooling — the reciprocal of the pool area (constructor constant for
+    QAveragePooling2D, area of the current input for QGlobalAveragePooling2D) -/
 def ownTarget (c : LCfg) (p : Nat × Term) : Bool :=
-  p.2 == .weight p.1 || p.2 == .op1 (.expandDims 0) (.weight p.1) ||
-    (p.1 == 0 && (p.2 == recip c || p.2 == recipIn c))
+  p.2 == .weight p.1 || (p.1 == 0 && (p.2 == recip c || p.2 == recipIn c))
 
 /-- cells: weight quantizers on their own weights, the state quantizer (slot 3) on previous states -/
 def ownTargetCell (p : Nat × Term) : Bool :=
@@ -691,6 +703,28 @@ def freshCalls {T : Type} (I : Interp T) (E : Env T) (t : Term) (xs : List T) : 
 def qGlobalAvgPool2dBuildCached (c : LCfg) : Term :=
   withAct c (.op2 .mul (.op1 (.sumHW c.pool.df c.keepdims) .input)
     (.quant 0 (.op1 (.recipAreaHW c.pool.df) (.state 0))))
+
+/-- QConv1D.call BEFORE /repo 035b3d2: `padding=self.padding` went to `K.conv1d`, whose own expansion
+    of `causal` pads axis 1 (`kConv1dOp`) -/
+def qConv1dBackendCausal (c : LCfg) : Term :=
+  let k := qw c 0 (.weight 0)
+  let out := kConv1dOp c.conv c.kernel .input k
+  let out := if c.useBias then .op2 (.biasAdd c.conv.df) out (qw c 1 (.weight 1)) else out
+  withAct c out
+
+/-- QSeparableConv1D.call BEFORE /repo 5ab82ec: the kernels were expanded to 4-D FIRST and the
+    quantizers saw the expanded tensors -/
+def qSepConv1dExpandFirst (c : LCfg) : Term :=
+  let x := if c.conv.padding = .causal then
+             .op1 (.padLeft (spatialStart c.conv) (dil0 c.conv * (c.kernel - 1))) .input
+           else Term.input
+  let x := Term.op1 (.expandDims (spatialStart c.conv)) x
+  let dk := Term.op1 (.expandDims 0) (.weight 0)
+  let pk := Term.op1 (.expandDims 0) (.weight 1)
+  let out := Term.op3 (.separableConv2d (sep1dGeom c.conv)) x (qw c 0 dk) (qw c 1 pk)
+  let out := if c.useBias then .op2 (.biasAdd c.conv.df) out (qw c 2 (.weight 2)) else out
+  let out := Term.op1 (.squeeze (spatialStart c.conv)) out
+  withAct c out
 
 /-- the seeded variant of QDense (seed C11-6): `K.bias_add(output, quantized_bias)` without the
     `data_format="channels_last"` argument follows the process-wide switch -/
